@@ -289,10 +289,22 @@ def det_and_adjugate(M):
 INV_LOG = []   # (matrix, det, dinv, inverse) for every stubbed inversion in this process
 
 
+LAZY_INV = [False]    # when set: inverses are opaque placeholder matrices (claims independent of the inverse only)
+
+
 def sym_inv(M):
     M = obj(M)
     if M.shape == (0, 0):
         return M.copy()
+    if LAZY_INV[0]:
+        k = len(INV_LOG)
+        inv = numpy.empty(M.shape, dtype=object)
+        for i in numpy.ndindex(*M.shape):
+            inv[i] = Sym(z3.Real("inv!%d[%d,%d]" % (k, i[0], i[1])))
+        inv = inv.view(SA)
+        INV_LOG.append((M, Sym(1), Sym(1), inv))
+        St.notes.add("opaque inverse (placeholders without axioms) for claims that do not depend on the inverse")
+        return inv
     det, adj = det_and_adjugate(M)
     if det.isconc():
         if det.re == 0:
